@@ -91,7 +91,14 @@ CHECKS.update({
             "Trusted: the shape classifier in vp/checks/c08.py; detector precedence as documented by get_model_features; vp.denote.compare_models with parameters matched by name.", "DESIGN.md §3 C08"),
 })
 
-READY = ["C01", "C03", "C04", "C06", "C07", "C08", "C05", "C10", "C11", "C13", "C14", "C17", "C18", "C19", "C20"]
+CHECKS.update({
+    "C15": ("exploration",
+            "controlled-scheduler runtime monitor: private instances of the real lock.py (one per simulated process) run with shimmed threading / fcntl / os on a simulated POSIX record-lock kernel; every lock, condition and system call is a scheduling point chosen by a seeded (random / PCT) scheduler; online monitor of mutual exclusion, kernel-lock coverage, recursion rule, try-lock soundness, pool emptiness, and deadlock classification against an ideal reader-writer lock",
+            "Generated nested lock programs (<= 3 threads over <= 2 processes, <= 2 paths, shared/exclusive, blocking/non-blocking, reentrant or not) are each executed under 40 (quick) / 250 (thorough) distinct schedules; at every entry and exit the holders recorded at the client boundary are checked against each other and against the simulated kernel's lock table; every run that ends with blocked threads is classified as inherent (ideal lock would block too / kernel EDEADLK) or as a lost wake-up.",
+            "Trusted: vp/sched.py (cooperative scheduler, shims, the simulated kernel follows fcntl(2): per-process record locks, replaced on re-lock, all dropped on any close of the file, EDEADLK on cycles). The real kernel and CPython's own Lock/Condition are not under test.", "DESIGN.md §3 C15"),
+})
+
+READY = ["C15", "C01", "C03", "C04", "C06", "C07", "C08", "C05", "C10", "C11", "C13", "C14", "C17", "C18", "C19", "C20"]
 
 NOT_BUILT = "check not built yet in this session (design in DESIGN.md); not claimed"
 
